@@ -35,7 +35,7 @@ package jsonapi
 
 //@ func UnmarshalPartialResource
 //@ flag post-per-return
-//@ props C13 C05
+//@ props C13 C05 C12
 //@ requires schema: schema != nil && allTypesWf(schema) && noIDField(schema)
 //@ modifies new[SoftResource], new[Type], new[map[string]any], new[map[string]Attr], new[map[string]Rel], new[time.Time], new[uint8], new[string], new[resourceSkeleton], new[map[string][]uint8], new[map[string]relationshipSkeleton], new[Identifier], new[[]Identifier], new[any], new[int], new[int8], new[int16], new[int32], new[int64], new[uint], new[uint16], new[uint32], new[uint64], new[bool], new[[]uint8]
 //@ ensures error-xor-result: (result1 != nil) == (result0 == nil)
@@ -148,7 +148,7 @@ package jsonapi
 //@ flag devirt-closed
 //@ flag post-per-return
 //@ inline Type.New
-//@ props C05 C13
+//@ props C05 C13 C12
 //@ requires schema: schema != nil && allTypesWf(schema) && noIDField(schema) && softSchema(schema)
 //@ modifies new[SoftResource], new[Type], new[map[string]any], new[map[string]Attr], new[map[string]Rel], new[time.Time], new[uint8], new[string], new[resourceSkeleton], new[map[string][]uint8], new[map[string]relationshipSkeleton], new[Identifier], new[[]Identifier], new[any], new[int], new[int8], new[int16], new[int32], new[int64], new[uint], new[uint16], new[uint32], new[uint64], new[bool], new[[]uint8]
 //@ ensures error-xor-result: (result1 != nil) == (result0 == nil)
@@ -217,7 +217,7 @@ package jsonapi
 
 //@ func UnmarshalCollection
 //@ flag post-per-return
-//@ props C05
+//@ props C05 C12
 //@ requires schema: schema != nil && allTypesWf(schema) && noIDField(schema) && softSchema(schema)
 //@ modifies new[Resources], new[Resource], new[SoftResource], new[Type], new[map[string]any], new[map[string]Attr], new[map[string]Rel], new[time.Time], new[uint8], new[string], new[resourceSkeleton], new[map[string][]uint8], new[map[string]relationshipSkeleton], new[Identifier], new[[]Identifier], new[any], new[int], new[int8], new[int16], new[int32], new[int64], new[uint], new[uint16], new[uint32], new[uint64], new[bool], new[[]uint8]
 //@ ensures error-xor-result: (result1 != nil) == (result0 == nil)
@@ -238,7 +238,7 @@ package jsonapi
 
 //@ func UnmarshalDocument
 //@ flag post-per-return
-//@ props C05
+//@ props C05 C12
 //@ requires schema: schema != nil && allTypesWf(schema) && noIDField(schema) && softSchema(schema)
 //@ modifies new[Document], new[payloadSkeleton], new[Error], new[Link], new[map[string]Link], new[map[string]map[string]struct{}], new[map[string]struct{}], new[map[string][]string], new[[]string], new[Resources], new[Resource], new[SoftResource], new[Type], new[map[string]any], new[map[string]Attr], new[map[string]Rel], new[time.Time], new[uint8], new[string], new[resourceSkeleton], new[map[string][]uint8], new[map[string]relationshipSkeleton], new[Identifier], new[[]Identifier], new[any], new[int], new[int8], new[int16], new[int32], new[int64], new[uint], new[uint16], new[uint32], new[uint64], new[bool], new[[]uint8]
 //@ ensures error-xor-result: (result1 != nil) == (result0 == nil)
